@@ -228,6 +228,38 @@ def predicate_suite(chk, w, rule, nmax, order_pairs=((1, 1), (2, 0), (0, 3)), ns
                     cs.expect(f, "isZero <=> no interval, or no stored coefficient compares unequal to zero",
                               dict(order=order, window=(s, e), coefficients=[("nan" if v_ == NAN else v_) for v_ in vals]),
                               o, is_bool(o, zero), str(zero))
+    # isZero is a function of the current value: querying it does not freeze the answer
+    for order in (0, 1):
+        cls = w.spline_cls(order)
+        f = w.method(cls, "isZero", 0)
+        isT = lambda d: d["params"][0]["type"].replace("const ", "").strip(" &") == w.T
+        fme = w.method(cls, "operator*=", 1, pred=isT)
+        fm = w.method(cls, "operator*", 1, pred=isT)
+        for n in ((2, 3,) if fixed else ()):
+            grid = w.need_grid(w.grid_values(n))
+            for (s, e) in windows(n):
+                if e - s < 2:
+                    continue
+                for query_first in (False, True):
+                    a = w.spline_on("a", order, grid, s, e, value=1)
+                    if query_first:
+                        o0 = w.call(f, a, [])
+                        cs.expect(f, "isZero is false for a spline with non-zero coefficients",
+                                  dict(order=order, n=n, window=(s, e)), o0, is_bool(o0, False), "False")
+                    w.call(fme, a, [box(Sc(0))])
+                    o = w.call(f, a, [])
+                    cs.expect(f, "after s *= 0 the spline is zero, whether or not isZero was queried before",
+                              dict(order=order, n=n, window=(s, e), queried_before=query_first), o, is_bool(o, True),
+                              "True")
+                    b = w.spline_on("a", order, grid, s, e, value=1)
+                    if query_first:
+                        w.call(f, b, [])
+                    r = w.call(fm, b, [box(Sc(0))])
+                    if r.kind == "val" and isinstance(val(r.v), Obj):
+                        o = w.call(f, val(r.v), [])
+                        cs.expect(f, "s * 0 is zero, whether or not isZero was queried on s before",
+                                  dict(order=order, n=n, window=(s, e), queried_before=query_first), o,
+                                  is_bool(o, True), "True")
     # equality
     for order in (0, 1):
         cls = w.spline_cls(order)
